@@ -466,6 +466,24 @@ func RunVectorHmm(c *core.Ctx, checkEM bool) {
 	// Matrix interface passes the `tr != nil` test of BaumWelchStep)
 	optE, optT := !t.Bool(1, 5), true
 	saveFile := t.Bool(1, 5)
+	// the transition matrix: free, with tied entries (equality constraints, the
+	// tied M-step is solved by a root finder to 1e-8) or hierarchical (blocks
+	// of states, transitions between blocks tied)
+	variant := t.Pick([]int{4, 1, 1})
+	var constraints []generic.EqualityConstraint
+	var tree generic.HmmNode
+	monoTol := 1e-9
+	switch variant {
+	case 1:
+		i1, j1, i2, j2 := t.Choose(m), t.Choose(m), t.Choose(m), t.Choose(m)
+		if i1 != i2 || j1 != j2 {
+			constraints = append(constraints, generic.EqualityConstraint{{i1, j1}, {i2, j2}})
+		}
+		monoTol = 1e-6
+	case 2:
+		cut := t.Range(1, m-1)
+		tree = generic.NewHmmNode(generic.NewHmmLeaf(0, cut), generic.NewHmmLeaf(cut, m))
+	}
 	// with ChunkSize > 0 every sequence is cut into consecutive pieces of at
 	// most that many observations, which are treated as independent sequences
 	chunks := recs
@@ -482,7 +500,8 @@ func RunVectorHmm(c *core.Ctx, checkEM bool) {
 			}
 		}
 	}
-	c.Logf("%s states=%d, %d Baum-Welch steps, %d records, ChunkSize=%d OptimizeEmissions=%v OptimizeTransitions=%v stateMap=%v start=%v final=%v, pool %s", what, m, steps, nrec, chunk, optE, optT, stateMap, startStates, finalStates, cfg)
+	what += []string{"", "|constrained", "|hierarchical"}[variant]
+	c.Logf("%s states=%d, %d Baum-Welch steps, %d records, ChunkSize=%d OptimizeEmissions=%v OptimizeTransitions=%v stateMap=%v start=%v final=%v constraints=%v tree=%v, pool %s", what, m, steps, nrec, chunk, optE, optT, stateMap, startStates, finalStates, constraints, tree, cfg)
 	for r, v := range recs {
 		c.Logf("  record %d: %v", r, vecOf(v))
 	}
@@ -503,7 +522,15 @@ func RunVectorHmm(c *core.Ctx, checkEM bool) {
 			like = append(like, likelihood)
 		}}
 		var err error
-		est, err = ve.NewHmmEstimator(ad.NewDenseFloat64Vector(append([]float64(nil), pi...)), ad.NewDenseFloat64Matrix(append([]float64(nil), tr...), m, m), stateMap, startStates, finalStates, mkEmissions(), math.Inf(-1), steps, hook)
+		piv, trm := ad.NewDenseFloat64Vector(append([]float64(nil), pi...)), ad.NewDenseFloat64Matrix(append([]float64(nil), tr...), m, m)
+		switch variant {
+		case 1:
+			est, err = ve.NewConstrainedHmmEstimator(piv, trm, stateMap, startStates, finalStates, constraints, mkEmissions(), math.Inf(-1), steps, hook)
+		case 2:
+			est, err = ve.NewHierarchicalHmmEstimator(piv, trm, stateMap, startStates, finalStates, tree, mkEmissions(), math.Inf(-1), steps, hook)
+		default:
+			est, err = ve.NewHmmEstimator(piv, trm, stateMap, startStates, finalStates, mkEmissions(), math.Inf(-1), steps, hook)
+		}
 		if err != nil {
 			o.err = err.Error()
 			return o
@@ -537,6 +564,7 @@ func RunVectorHmm(c *core.Ctx, checkEM bool) {
 		return o
 	}
 	seq := run(tp.ThreadPool{})
+	c.Count("hmm-transition-matrix:" + []string{"free", "constrained", "hierarchical"}[variant] + map[bool]string{true: ":sequential-run-error", false: ":ok"}[seq.err != ""])
 	if sequentialPanics(c, seq) {
 		return
 	}
@@ -554,7 +582,7 @@ func RunVectorHmm(c *core.Ctx, checkEM bool) {
 	compare(c, what, cfg, seq, par, 1e-8)
 	inputsUnchanged(c, what, before, snapVecs(recs))
 	if checkEM && par.err == "" {
-		checkMonotone(c, what, par.trace)
+		checkMonotoneTol(c, what, par.trace, monoTol)
 		// the likelihood reported at hook call i is the log-likelihood of the
 		// (chunked) data under the model published at call i-1, evaluated
 		// here through the public density of that model
@@ -589,11 +617,15 @@ func RunVectorHmm(c *core.Ctx, checkEM bool) {
 // checkMonotone: the likelihood reported at successive EM iterations never
 // decreases (families with an exact M-step).
 func checkMonotone(c *core.Ctx, what string, trace []float64) {
+	checkMonotoneTol(c, what, trace, 1e-9)
+}
+
+func checkMonotoneTol(c *core.Ctx, what string, trace []float64, tol float64) {
 	for i := 1; i < len(trace); i++ {
 		if math.IsNaN(trace[i]) || math.IsNaN(trace[i-1]) {
 			continue
 		}
-		if trace[i] < trace[i-1]-1e-9*(1+math.Abs(trace[i-1])) {
+		if trace[i] < trace[i-1]-tol*(1+math.Abs(trace[i-1])) {
 			c.Fail("em-monotone", what+"|likelihood-decreased", "%s: the likelihood reported at iteration %d (%.12g) is smaller than at iteration %d (%.12g); trace %v", what, i+1, trace[i], i, trace[i-1], trace)
 		}
 	}
